@@ -8,7 +8,7 @@ package gqlerrors
 //@   props C18 C09
 //@   trusted
 //@   assigns nothing
-//@   requires s != nil && 0 <= position
+//@   requires s != nil
 //@   ensures result != nil
 
 //@ func FormatError
